@@ -94,6 +94,7 @@ type Proc struct {
 	children []*Proc
 	w        *World
 	diedAt   time.Duration
+	crashed  bool // terminated by a signal nobody sent with Kill (see Crash)
 }
 
 func (w *World) newProc(name string, parent *Proc, pgid int) *Proc {
@@ -153,6 +154,19 @@ func (p *Proc) Exit(code int) {
 	}
 	p.die(true, code, 0)
 }
+
+// Crash ends the process by a signal that does not come from the executor: one it raised itself
+// (SIGSEGV, SIGABRT) or one from outside (the OOM killer, an operator). Nothing is added to Signals.
+func (p *Proc) Crash(sig syscall.Signal) {
+	if !p.running {
+		return
+	}
+	p.crashed = true
+	p.die(false, -1, sig)
+}
+
+// Crashed: the process was terminated by a signal that was not sent through Kill (see Crash).
+func (p *Proc) Crashed() bool { return p.crashed }
 
 func (p *Proc) die(exited bool, code int, sig syscall.Signal) {
 	p.running = false
@@ -402,6 +416,10 @@ func (s *ProcessState) String() string {
 		return "signal: terminated"
 	case syscall.SIGINT:
 		return "signal: interrupt"
+	case syscall.SIGSEGV:
+		return "signal: segmentation fault"
+	case syscall.SIGABRT:
+		return "signal: aborted"
 	}
 	return fmt.Sprintf("signal: %d", int(s.sig))
 }
